@@ -628,7 +628,7 @@ pub fn generate(profile: &'static str, rng: &mut Rng, run_seed: u64, miri: bool)
         "C03" => if r < 45 { t_dormant(rng, profile, run_seed, miri) } else { mixed(rng, profile, &cfg, run_seed) },
         "C04" => if r < 35 { t_multisync(rng, profile, run_seed, miri) } else if r < 55 { t_holds(rng, profile, run_seed, miri, true) } else { mixed(rng, profile, &cfg, run_seed) },
         "C09" => if r < 25 { t_try_block(rng, profile, run_seed, miri) } else if r < 50 { t_try_hammer(rng, profile, run_seed, miri) } else { mixed(rng, profile, &cfg, run_seed) },
-        "C10" => if r < 25 { t_raise(rng, profile, run_seed, miri) } else { t_holds(rng, profile, run_seed, miri, false) },
+        "C10" => if r < 25 && !miri { t_raise(rng, profile, run_seed, miri) } else { t_holds(rng, profile, run_seed, miri, false) },
         "C11" => if r < 12 { t_pipe_chain(rng, profile, run_seed, miri) } else { t_pipe(rng, profile, run_seed, miri, false, false) },
         "C12" => t_pipe(rng, profile, run_seed, miri, true, false),
         "C16" => t_pipe(rng, profile, run_seed, miri, true, true),
